@@ -122,7 +122,14 @@ func init() {
 					tw := deepCopyJSON(map[string]interface{}(g.Obj)).(map[string]interface{})
 					tw["apiVersion"] = pickS(r, []string{"apps.example.io/v1beta1", "batch.example.io/v1alpha1", "ext.example.io/v1"})
 					tw["metadata"] = meta(id, name, g.NS, nil)
-					t.addRes(li, "Foreign-"+g.Kind, name, g.NS, Obj(tw))
+					// the default specs for Deployment, ReplicaSet and DaemonSet selectors/templates carry NO group: a same-named
+					// kind of another group is labelled like the built-in one (reviewed against commonlabels.go /
+					// metadatalabels.go); the other kinds' specs are group-qualified and reach metadata.labels only
+					twKind := "Foreign-" + g.Kind
+					if g.Kind == "Deployment" || g.Kind == "ReplicaSet" || g.Kind == "DaemonSet" {
+						twKind = g.Kind
+					}
+					t.addRes(li, twKind, name, g.NS, Obj(tw))
 					twins = append(twins, Obj(tw))
 				}
 				if len(twins) > 0 {
